@@ -24,7 +24,7 @@ check("C03", "model_checking",
       "Same model and bubbles as C02, validated against the Cap and Eager clauses: in-flight (targeter calls minus results taken) never "
       "exceeds max-workers at any settled instant (one-event slack between), and a released hit whose wait is over has started unless all "
       "capacity is busy; scripts biased to slow transports/consumers and initial workers below/at/above the maximum. The runs of the exported "
-      "scripts are additionally validated against Attack.tla itself (internal actions as silent steps): a mismatch is reported as model drift.",
+      "scripts are additionally validated against Attack.tla itself (internal actions as silent steps): a mismatch is reported as model drift. The command-line anchor is covered end to end: AttackCmd.tla states what the attack command's flags mean for the requests an in-process loopback server sees and for the results written; TLC exports its cases and every real run is validated against it.",
       ATTACK_NOTE, ATTACK_TECH, "DESIGN.md section 5 (C03), Appendix A")
 check("C04", "model_checking",
       "Same model and bubbles, validated against PaceArgs (hits = 0,1,2,.., elapsed exact and non-decreasing), ObeyWait (no start before the "
@@ -54,7 +54,7 @@ check("C14", "model_checking",
       "slices with capacity for the default-header merge. TLC checks for every sequence of line kinds up to length 5 (7 thorough) that the "
       "scanner decodes each well-formed file to the reference blocks, explores the merge for any spare capacity and up to 3-4 targets "
       "(Independent), and shows that both historic defects violate these. Every exported sequence and random http/JSON documents are decoded "
-      "by the real targeters (lazy, eager, static), earlier targets re-inspected after every call, and the traces validated by TLC.",
+      "by the real targeters (lazy, eager, static), earlier targets re-inspected after every call, and the traces validated by TLC. The command-line anchor is covered end to end: AttackCmd.tla states what the attack command's flags mean for the requests an in-process loopback server sees and for the results written; TLC exports its cases and every real run is validated against it.",
       "well-formed = the reference grammar (blocks with headers end at a blank line/EOF; no blank between header key and colon; JSON lines newline-terminated as the pinned test requires)",
       "TLA+ reference grammar vs scanner transcription (TLC exhaustive over line-kind sequences), exported cases replayed, TLC trace validation",
       "DESIGN.md section 8 (C14)")
@@ -112,7 +112,7 @@ check("C20", "model_checking",
       "Prom.tla keeps, per label set, the byte counters, the latency histogram (count, sum, cumulative buckets) and per message the failure counter; "
       "TLC checks for every sequence of up to 3 observations over a small domain that the state equals the direct sums, and that the historic "
       "never-incremented failure counter does not. The real prom.Metrics observes up to 10^4 results sequentially and from 16 goroutines; the "
-      "gathered registry is compared by TLC with the sums (BigNat).",
+      "gathered registry is compared by TLC with the sums (BigNat). The command-line anchor is covered end to end: AttackCmd.tla states what the attack command's flags mean for the requests an in-process loopback server sees and for the results written; TLC exports its cases and every real run is validated against it.",
       "client_golang's registry and histogram are trusted as the observation interface; histogram sum within 1 ns per sample",
       "TLA+ state machine vs direct sums (TLC exhaustive), TLC trace validation of gathered registries", "DESIGN.md section 7 (C20)")
 
@@ -120,7 +120,7 @@ check("C19", "model_checking",
       "Flags.tla gives the documented meaning of each flag as a function of the token structure; TLC enumerates the -rate grammar (183 cases: all units, "
       "multiples, 0/infinity, malformed shapes) and exports it; every case and random ones are rendered as text and applied through the real flag.Value "
       "types of package main (also after an earlier -rate flag, with/without -max-workers, printed form parsed back), as are repeated -header flags, "
-      "-max-body spellings, -connect-to, -dns-ttl and -resolvers (dialled); TLC checks every stored value against the specification.",
+      "-max-body spellings, -connect-to, -dns-ttl and -resolvers (dialled); TLC checks every stored value against the specification. The command-line anchor is covered end to end: AttackCmd.tla states what the attack command's flags mean for the requests an in-process loopback server sees and for the results written; TLC exports its cases and every real run is validated against it.",
       "flag values are observed through the verif-tagged in-process driver; the pacer handed to the attacker is taken to be the stored rate",
       "TLA+ grammar/meaning enumeration by TLC, exported cases replayed on the real flag parsers, TLC trace validation", "DESIGN.md section 8 (C19)")
 
@@ -153,7 +153,7 @@ check("C18", "model_checking",
       "ConnectTo counter; TLC explores 2 dialers x 3 dials over a 2+1 address set: the entry stays intact, each attempt dials one resolved address "
       "per family, rotation is even; the historic aliasing and a non-atomic counter are shown to fail. The real option stack (recording DialContext "
       "at the bottom, DNSCaching / ConnectTo on top, in-process DNS server as net.DefaultResolver) performs 600 sequential and 800 concurrent hits per "
-      "address set, rotation runs incl. interleaved mapped keys, and all option orders concurrently; TLC validates every dial; -race reports count.",
+      "address set, rotation runs incl. interleaved mapped keys, and all option orders concurrently; TLC validates every dial; -race reports count. The command-line anchor is covered end to end: AttackCmd.tla states what the attack command's flags mean for the requests an in-process loopback server sees and for the results written; TLC exports its cases and every real run is validated against it.",
       "statistical clause sized for < 1e-12 false alarms; dials are recorded and refused (no connection); clauses on address choice only for the documented option order",
       "TLA+ shared-slice model (TLC exhaustive) + TLC trace validation of recorded dials, Go race detector", "DESIGN.md section 8 (C18)")
 
